@@ -62,9 +62,11 @@ def write_replay(pid, seed, kind, h, detail):
 
 def run_one(h, prop):
     """runs one history on both sides -> (cmp, finding, ilines, mlines)"""
-    impl, model, problems = engine.run_histories([h], timeout=120, shards=1)
+    impl, model, problems, spec = engine.run_histories([h], timeout=120, shards=1, want_spec=prop.needs_spec)
     il, ml = impl.get(h.hid, []), model.get(h.hid, [])
+    prop.spec_lines.update(spec)
     cmp_ = engine.compare_history(h, ml, il, prop.in_projection)
+    problems = [p for p in problems if p["kind"] == "impl"]
     finding = prop.oracle(h, il) if not problems else {"reason": "implementation run did not finish", "index": len(il)}
     return cmp_, finding, il, ml
 
@@ -159,7 +161,8 @@ def main():
         assert h.hid not in seen, h.hid
         seen.add(h.hid)
     log("[%s] %d histories (%d corpus), running ..." % (pid, len(hs), n_corpus))
-    impl, model, problems = engine.run_histories(hs, timeout=prop.timeout(tier))
+    impl, model, problems, spec = engine.run_histories(hs, timeout=prop.timeout(tier), want_spec=prop.needs_spec)
+    prop.spec_lines = spec
     stats = {"agree": 0, "diverge": 0, "unmodelled": 0, "outoffuel": 0, "offproj": 0,
              "compared_calls": 0, "abs_only": 0}
     first_div, first_find = None, None
@@ -232,7 +235,8 @@ def main():
         if first_div is not None:
             extra = prop.search(gen.Rng(seed + 7919), tier, first_div[0])
             if extra:
-                i2, m2, p2 = engine.run_histories(extra, timeout=prop.timeout(tier), want_model=False)
+                i2, m2, p2, sp2 = engine.run_histories(extra, timeout=prop.timeout(tier), want_model=False, want_spec=prop.needs_spec)
+                prop.spec_lines.update(sp2)
                 for h in extra:
                     il = i2.get(h.hid)
                     if il is None:
